@@ -12,6 +12,8 @@ func main() { vh.Main("flavors", run) }
 
 func run(c *vh.Ctx) {
 	switch c.Prop {
+	case "C29":
+		runFlavors(c)
 	case "C31":
 		runNil(c)
 	case "C46":
